@@ -97,6 +97,7 @@ struct Judge
         if (!wanted(rule, keyvals, k, idx)) { L.count("skipped_premise"); return; }
         if (!successful) { L.count("premise_ok_not_converged"); return; }
         L.count("checked_successful");
+        L.sample("{\"case\": " + jstr(key) + ", \"k\": " + num(k) + "}", 4);
         Fnv f; f.str(key);
         L.distinct.insert(f.h);
         LD spread = 0;
